@@ -280,6 +280,7 @@ func c14Prop(sc Scenario, cases *[]*c14case) func(t *rapid.T) {
 		}
 		close(start)
 		wg.Wait()
+		cs.pollMu.Lock() // the polling goroutines of the context-poll family append to cs.ctxs when they are done
 		for g := 0; g < G; g++ {
 			cs.ops = append(cs.ops, perG[g]...)
 			cs.ctxs = append(cs.ctxs, perCtx[g]...)
@@ -288,11 +289,14 @@ func c14Prop(sc Scenario, cases *[]*c14case) func(t *rapid.T) {
 				cs.liveDuring = false
 			}
 		}
-		for _, c := range cs.ctxs {
-			if c.Err() != nil {
-				cs.liveDuring = false
+		for g := 0; g < G; g++ {
+			for _, c := range perCtx[g] {
+				if c.Err() != nil {
+					cs.liveDuring = false
+				}
 			}
 		}
+		cs.pollMu.Unlock()
 	}
 }
 
